@@ -49,7 +49,8 @@ def make(case):
         noise=case["noise"] * Fmax, seed=4,
         tilt=case["tilt"] * Fmax / 3e-6,
         drift=case["drift"] * Fmax / (2 * case["n"] * 1e-3),
-        lag=case["lag"], quant=case["quant"], innate_tip=False,
+        lag=case["lag"], quant=case["quant"],
+        innate_tip=bool(case.get("innate", False)),
         drive=case.get("drive", "linear"))
 
 
@@ -392,6 +393,13 @@ def cases(tier):
                     cs.append({"kind": "grid", "model": mk, "noise": noise,
                                "tilt": 0.0, "drift": 0.0, "lag": lag,
                                "quant": 0.0, "n": 300, "offset": offset})
+    # curves that come with a tip position of their own (exported data)
+    for mk in ("hertz_para", "hertz_cone"):
+        for noise in (0.0, 0.01):
+            for tilt in (0.0, 0.02):
+                cs.append({"kind": "grid", "model": mk, "noise": noise,
+                           "tilt": tilt, "drift": 0.0, "lag": 5,
+                           "quant": 0.0, "n": 300, "innate": True})
     # densely sampled curves with a smooth z-drive and a lagged turning
     # point: the measured height reverses gently near the turning point
     for n in ((20000,) if tier == "quick" else (20000, 40000, 8000)):
